@@ -206,6 +206,33 @@ def main():
                     if a != b:
                         bad.append('runcall(f, 1, %s=2): direct %r, runcall %r' % (nm, a, b))
         return 'fine' if not bad else '%d keyword names mishandled, e.g. %s' % (len(bad), '; '.join(bad[:3]))
+    def meta_transparency(pkind):
+        # what a caller can read off the callable: names, docstring, module, signature, attributes of its own — also when they live in the
+        # instance dict of a partial object (functools.update_wrapper on a partial, attributes assigned by hand)
+        import inspect
+        sh = {k: v for k, v in shapes().items() if not isinstance(v, (staticmethod, classmethod))}
+        pm = functools.partial(sh['fixed signature'], n=2)
+        functools.update_wrapper(pm, sh['fixed signature'])
+        pm.__name__, pm.__doc__, pm.tag = 'square', 'doc of square', 'kept'
+        sh['partial carrying metadata of its own'] = pm
+
+        def meta(o):
+            d = {k: repr(getattr(o, k, '<absent>')) for k in ('__name__', '__qualname__', '__doc__', '__module__', 'tag')}
+            try:
+                d['signature'] = str(inspect.signature(o))
+            except Exception as e:   # noqa
+                d['signature'] = 'EXC ' + type(e).__name__
+            return d
+        bad = []
+        for sname, orig in sh.items():
+            prof = line_profiler.LineProfiler() if pkind == 'line' else kernprof.ContextualProfile()
+            before = meta(orig)
+            after = meta(prof(orig))
+            if before != after:
+                bad.append('%s: %s' % (sname, {k: (before[k], after[k]) for k in before if before[k] != after[k]}))
+        return 'fine' if not bad else '; '.join(bad[:3])
+    out['names, docstring, signature and attributes of a LineProfiler-decorated callable are those of the original'] = scenario(lambda: meta_transparency('line'))
+    out['names, docstring, signature and attributes of a ContextualProfile-decorated callable are those of the original'] = scenario(lambda: meta_transparency('ctx'))
     out['keyword arguments of every name reach a LineProfiler-decorated callable'] = scenario(lambda: kw_transparency('line'))
     out['keyword arguments of every name reach a ContextualProfile-decorated callable'] = scenario(lambda: kw_transparency('ctx'))
     out['keyword names tried'] = 'ok' if len(own_names()) > 20 else 'too few names collected: %s' % own_names()
